@@ -22,6 +22,18 @@ StackCols(cells, newcol) == Append(cells, newcol)
 AppendRow(cells, row) == [c \in 1..Len(cells) |-> Append(cells[c], row[c])]
 Transpose(cells, nrows) == [r \in 1..nrows |-> [c \in 1..Len(cells) |-> cells[c][r]]]
 
+(* t.rename_columns(olds, news): pairs are applied left to right, each renaming the FIRST column that
+   currently carries the old name (so a name introduced by an earlier pair can be renamed again);
+   if any old name is not found, NOTHING is renamed (C08).                                          *)
+RECURSIVE RenameFrom(_, _, _, _)
+RenameFrom(names, olds, news, k) ==
+    IF k > Len(olds) THEN names
+    ELSE LET i == FirstIndex(names, olds[k]) IN
+         IF i = 0 THEN <<"#missing#">>
+         ELSE RenameFrom([names EXCEPT ![i] = news[k]], olds, news, k + 1)
+RenameOk(names, olds, news) == Len(olds) = Len(news) /\ RenameFrom(names, olds, news, 1) # <<"#missing#">>
+RenameColumns(names, olds, news) == IF RenameOk(names, olds, news) THEN RenameFrom(names, olds, news, 1) ELSE names
+
 (* table item assignment t[row, cols] = values: one vector assignment per addressed column;
    ALL columns are validated before any is written (atomic).  kinds[c] is the column dtype,
    tags[k] the tag of the value destined to the k-th addressed column.                      *)
